@@ -17,17 +17,22 @@ type pkgSel struct {
 var checkedInPkgs = []string{"./testpb", "./internal/testprotos/test3"}
 
 func newGen(s *Schema, tier string) *gen {
-	g := &gen{s: s, strLen: 1 << 21, keyLen: 2, listN: 2, mapN: 2, pick: 3, seed: seed(), smallPayload: 4}
+	g := &gen{s: s, strLen: 1 << 21, keyLen: 2, listN: 1, mapN: 1, pick: 2, seed: seed(), smallPayload: 4, tier: tier}
 	if tier == "thorough" {
-		g.pick = 5
+		g.pick = 4
 		g.smallPayload = 6
+		g.listN, g.mapN = 2, 2
 	}
 	return g
 }
 
 // codecUnits builds harness units for the codec-style properties over the checked-in packages.
 func codecUnits(props []string, tier string, fileTag string, srcFn func(g *gen, msgs []*Message) string) ([]*Unit, []string, error) {
-	pkgs, err := LoadTypes(repoDir, checkedInPkgs...)
+	return codecUnitsAt(repoDir, checkedInPkgs, tier, fileTag, srcFn)
+}
+
+func codecUnitsAt(dir string, pkgPatterns []string, tier string, fileTag string, srcFn func(g *gen, msgs []*Message) string) ([]*Unit, []string, error) {
+	pkgs, err := LoadTypes(dir, pkgPatterns...)
 	if err != nil {
 		return nil, nil, err
 	}
@@ -48,7 +53,7 @@ func codecUnits(props []string, tier string, fileTag string, srcFn func(g *gen, 
 		u.Files["zz_vh_"+fileTag+".go"] = srcFn(g, msgs)
 		u.finish()
 		units = append(units, u)
-		rel, _ := filepath.Rel(repoDir, s.Dir)
+		rel, _ := filepath.Rel(dir, s.Dir)
 		patterns = append(patterns, "./"+rel)
 	}
 	return units, patterns, nil
